@@ -432,8 +432,60 @@ func TestVerifC18(t *testing.T) {
 		}
 	}
 
+	// pairs with DISJOINT preferences for one amino acid: the first organism
+	// uses only one of its synonyms, the second only another one (every other
+	// amino acid at random), so that at any cut-off above 0 every codon of that
+	// amino acid is cut off in the compromise table. Their own random stream.
+	disjointPerCode := 1
+	if thorough {
+		disjointPerCode = 8
+	}
+	{
+		rng3 := newC18Rand(verifSeed() ^ 0xd15)
+		for _, id := range c18Ids {
+			for k := 0; k < disjointPerCode; k++ {
+				base := c18Copy(GetCodonTable(id))
+				sort.Slice(base.AminoAcids, func(i, j int) bool { return base.AminoAcids[i].Letter < base.AminoAcids[j].Letter })
+				var multi []AminoAcid
+				for _, aa := range base.AminoAcids {
+					if len(aa.Codons) >= 2 {
+						multi = append(multi, aa)
+					}
+				}
+				aa := multi[rng3.Intn(len(multi))]
+				x := rng3.Intn(len(aa.Codons))
+				y := (x + 1 + rng3.Intn(len(aa.Codons)-1)) % len(aa.Codons)
+				notInA, notInB := map[string]bool{}, map[string]bool{}
+				for j, c := range aa.Codons {
+					if j != x {
+						notInA[c.Triplet] = true
+					}
+					if j != y {
+						notInB[c.Triplet] = true
+					}
+				}
+				size := []int{100, 300, 1000}[rng3.Intn(3)]
+				a := base.OptimizeTable(c18SplitSequence(rng3, base, size, notInA, []string{aa.Codons[x].Triplet}))
+				base2 := c18Copy(base)
+				b := base2.OptimizeTable(c18SplitSequence(rng3, base2, size, notInB, []string{aa.Codons[y].Triplet}))
+				if k%2 == 1 {
+					b = c18Shuffled(rng3, b)
+				}
+				add(fmt.Sprintf("code %d disjoint pair %d (%s: only %s in the first table, only %s in the second)", id, k, aa.Letter, aa.Codons[x].Triplet, aa.Codons[y].Triplet), a, b)
+				p := &pairs[len(pairs)-1]
+				for j, c := range aa.Codons {
+					i := c18Index(c.Triplet)
+					if (p.va.w[i] > 0) != (j == x) || (p.vb.w[i] > 0) != (j == y) {
+						t.Fatalf("harness: %s: codon %s has weights %d / %d", p.name, c.Triplet, p.va.w[i], p.vb.w[i])
+					}
+				}
+			}
+		}
+	}
+	rngDead := newC18Rand(verifSeed() ^ 0xdead)
+
 	vSum := newVerifRun("C18", "transform/codon.AddCodonTable/post/sum",
-		fmt.Sprintf("%d pairs of deep-copied tables per code (all 25 codes) re-weighted with OptimizeTable from random coding sequences of 64..30000 codons in which every amino acid occurs (random bias, unused synonyms), every second pair with the second table's amino acids and codons in another order, plus pairs 1/11, 11/1, 27/28, 28/27 (same assignment, different start/stop lists) and a table with itself, plus %d 'split' pair(s) per code in which, for most amino acids with two or more codons, one synonym is unused (weight 0) in the first table only and another in the second table only (every amino acid still occurs in both); both argument orders; each codon's weight = sum of its two weights; non-trivial = every case", pairsPerCode, splitPerCode))
+		fmt.Sprintf("%d pairs of deep-copied tables per code (all 25 codes) re-weighted with OptimizeTable from random coding sequences of 64..30000 codons in which every amino acid occurs (random bias, unused synonyms), every second pair with the second table's amino acids and codons in another order, plus pairs 1/11, 11/1, 27/28, 28/27 (same assignment, different start/stop lists) and a table with itself, plus %d 'split' pair(s) per code in which, for most amino acids with two or more codons, one synonym is unused (weight 0) in the first table only and another in the second table only (every amino acid still occurs in both), plus %d 'disjoint' pair(s) per code in which one amino acid with two or more codons uses ONLY one synonym in the first table and ONLY another one in the second (so that any cut-off above 0 cuts off every one of its codons); both argument orders; each codon's weight = sum of its two weights; non-trivial = every case", pairsPerCode, splitPerCode, disjointPerCode))
 	vSum.Sampled()
 	vSkA := newVerifRun("C18", "transform/codon.AddCodonTable/post/skeleton",
 		"same pairs, both argument orders: the sum lists each of the 64 codons once under the letter the FIRST table gives it, and its start and stop codon sets are the first table's; non-trivial = pairs whose start/stop lists differ")
@@ -452,7 +504,8 @@ func TestVerifC18(t *testing.T) {
 		"same pairs x cut-offs {-1, -0.5, -1e-9, -5e-324, -0, 0, 5e-324, 0.1, 0.5, nextbefore(1), 1, nextafter(1), 1.000001, 1.5, 2} plus the realised-share cut-offs: error iff cut-off < 0 or > 1; non-trivial = every case")
 	vRej.Sampled()
 	vRare := newVerifRun("C18", "transform/codon.Optimize/post/compromise-never-rare",
-		"same pairs x cut-offs > 0: a random protein (200 residues, thorough 1000) over the amino acids that keep a positive weight in the compromise table is optimised with it; no emitted codon may have a share below the cut-off in either source table (shares within 1 of the cut-off on the 10000-scale count as not below); also each emitted codon must encode the residue; non-trivial = some synonym of a requested amino acid was zeroed by the cut-off")
+		"same pairs x cut-offs > 0: a random protein (200 residues, thorough 1000) over the amino acids that keep a positive weight in the compromise table is optimised with it; no emitted codon may have a share below the cut-off in either source table (shares within 1 of the cut-off on the 10000-scale count as not below); also each emitted codon must encode the residue; non-trivial = some synonym of a requested amino acid was zeroed by the cut-off. "+
+			"PLUS, for every pair and cut-off > 0 whose compromise table leaves some amino acid WITHOUT any positive weight (all its synonyms cut off: the amino acid of a disjoint pair at every cut-off, most amino acids at cut-offs 0.9..1): a protein of 12 residues over all the table's amino acids holding at least one such amino acid (one in six consists of that amino acid only) is optimised with the compromise table; accepted outcomes are an error, or a gene of three bases per residue that encodes the protein and holds no codon that is certainly below the cut-off in either source table (the must-be-zero decision of the mean-share clause); a cut-off codon emitted for the amino acid without usable codons is classed all-synonyms-cut-off; non-trivial = every such case")
 	vRare.Sampled()
 
 	fixedCuts := []float64{-1, -0.5, -1e-9, -5e-324, math.Copysign(0, -1), 0, 5e-324, 1e-4, 0.05, 0.1, 0.25, 1.0 / 3, 0.5, 0.9,
@@ -629,6 +682,65 @@ func TestVerifC18(t *testing.T) {
 			for i := 0; i < 64; i++ {
 				if seen[got.letter[i]] && got.w[i] == 0 && (p.va.w[i] > 0 || p.vb.w[i] > 0) {
 					zeroed = true
+				}
+			}
+			// amino acids of which every synonym was cut off: a protein holding one
+			// must be rejected or encoded without any cut-off codon
+			var dead, everyLetter []byte
+			{
+				seenAll := map[byte]bool{}
+				for i := 0; i < 64; i++ {
+					l := got.letter[i]
+					if !seenAll[l] {
+						seenAll[l] = true
+						everyLetter = append(everyLetter, l)
+						if tot[l] == 0 {
+							dead = append(dead, l)
+						}
+					}
+				}
+			}
+			if len(dead) > 0 {
+				prot := make([]byte, 12)
+				only := rngDead.Intn(6) == 0
+				for i := range prot {
+					if only {
+						prot[i] = dead[0]
+					} else {
+						prot[i] = everyLetter[rngDead.Intn(len(everyLetter))]
+					}
+				}
+				prot[rngDead.Intn(len(prot))] = dead[rngDead.Intn(len(dead))]
+				isDead := map[byte]bool{}
+				for _, l := range dead {
+					isDead[l] = true
+				}
+				inD := fmt.Sprintf("Optimize(%s) with CompromiseCodonTable(%s, cut-off %v), in which every codon of %s has weight 0", prot, p.name, cut, dead)
+				vRare.Case(inD, true)
+				var dna string
+				var err error
+				if vRare.Guard("all-synonyms-cut-off-panic", inD, func() { dna, err = Optimize(string(prot), res[0]) }) && err == nil {
+					// not rejected: then it must be a gene for the protein without cut-off codons
+					full := inD + "; a=" + c18Describe(p.va) + "; b=" + c18Describe(p.vb)
+					if len(dna) != 3*len(prot) {
+						vRare.Fail("optimize-failed", full, fmt.Sprintf("no error, %d bases for %d residues", len(dna), len(prot)))
+					} else {
+						for k := 0; k < len(prot); k++ {
+							i := c18Index(dna[3*k : 3*k+3])
+							if i < 0 || p.va.letter[i] != prot[k] {
+								vRare.Fail("wrong-codon", full, fmt.Sprintf("residue %d (%c) encoded by %s", k, prot[k], dna[3*k:3*k+3]))
+								break
+							}
+							if decide[i] < 0 {
+								class := "rare-codon-used"
+								if isDead[prot[k]] {
+									class = "all-synonyms-cut-off"
+								}
+								vRare.Fail(class, full, fmt.Sprintf("no error; gene %s: residue %d (%c) encoded by %s whose shares are %.2f and %.2f, cut-off %.2f (10000-scale), weight %d in the compromise table", dna, k, prot[k], c18Triplet(i), sa[i], sb[i], c, got.w[i]))
+								break
+							}
+						}
+					}
 				}
 			}
 			inR := fmt.Sprintf("Optimize with CompromiseCodonTable(%s, cut-off %v)", p.name, cut)
